@@ -26,7 +26,7 @@ from checks.c18_rr import history, stamp, valid
 from checks.sctp_common import base_problems
 from vlib.patches import TimeShim, patched
 from vlib.runner import Check, Family, Outcome, Stats
-from vlib.sctpsim import Session
+from vlib.sctpsim import Session, chunk_types
 from vlib.strategies import session_case
 
 # --------------------------------------------------------------------------
@@ -162,7 +162,7 @@ def _transcript(case: dict, tsn: list, ssn_shift: int):
     def after_each(n: int, op: dict) -> None:
         if s.link is not None and s.link.tap is None:
             def tap(side: int, data: bytes) -> None:
-                if len(data) > 12 and data[12] == 192:
+                if 192 in chunk_types(data):
                     s.forward_tsn_seen = True
             s.link.tap = tap
 
